@@ -148,6 +148,12 @@ func genAssocV(c *Ctx, nPairs int, withExtras bool, withConflicts bool, variant 
 			vp := &gtfsrt.VehiclePosition{StopId: sp(ap.vpStop)}
 			if vpNamesTrip {
 				vp.Trip = cloneTD(ap.td)
+				if variant == 3 && ap.tdesc == 0 && ap.expr == 4 && c.Free(p+"position_names_a_trip_by_trip_id_only", 2) == 1 {
+					// {trip_id} and {trip_id, route_id} are different trip identifiers: two trips, in every entity order
+					// (only where the trip update names no vehicle: otherwise the vehicle would serve two trips)
+					vp.Trip = &gtfsrt.TripDescriptor{TripId: ap.td.TripId}
+					key.WriteString("vpTripByIdOnly ")
+				}
 			}
 			if ap.vd != nil {
 				vp.Vehicle = cloneVD(ap.vd)
